@@ -39,12 +39,14 @@ def check(c):
         # T: real responses to junk and structured requests, judged by TraceServe!C03ok
         n = 8 if thorough else 2
         shards = [["-mode", "both", "-configs", "14", "-requests", "400" if thorough else "250"] for _ in range(n)]
-        out["tot"] = servelib.run_serve(c, "C03", shards, "response headers violate C03")
+        out["tot"] = servelib.run_serve(c, "C03", shards, "response headers violate C03", conform=True)
 
     c.parallel([cors_model, reqparse, serve], max_workers=3)
     rs, tot = out["rs"], out["tot"]
     for v in (rs["violations"] or []):
         c.violation("Origin %r is echoed although it is not the serialization of an allowed origin" % v["origin"], v)
+    if rs.get("panics"):
+        c.drift.append("%d panics while replaying the ReqParse universe (C17's business): %s" % (len(rs["panics"]), rs["panics"][0]))
     if rs["drift"]:
         c.drift.append("ReqParse.tla differs from the real scanner/tree on %d of %d byte strings, e.g. %s" % (
             rs["drift"], rs["cases"], json.dumps(rs["drifts"][:2])))
